@@ -107,6 +107,65 @@ pub fn grid(th: bool) -> Vec<Cfg> {
             }
         }
     }
+    // fixed roots whose entry count does not fill whole sectors (the last root sector is partly used)
+    for (ft, bps, spc, root) in [(FatType::Fat12, 512u16, 1u32, 200u16), (FatType::Fat16, 512, 2, 17), (FatType::Fat12, 1024, 4, 100)] {
+        if let Some(c) = geometry_cfg(ft, bps, spc, 2, root, 10) {
+            v.push(c);
+        }
+    }
+    v
+}
+
+/// volume whose free clusters hold garbage (a used medium): 0xA5 filler with a few bytes that look like live
+/// short-name entries; clusters of several sectors
+pub fn garbage_cfg(ft: FatType, bps: u16, spc: u32) -> Option<Cfg> {
+    let c = geometry_cfg(ft, bps, spc, 2, 64, 10)?;
+    let harness::dev::Base::Bytes(img) = &*c.base else { return None };
+    let mut img = img.clone();
+    let g = vol::geo_of(&img);
+    let cs = g.cluster_size() as usize;
+    for cl in 2..=g.max_cluster() {
+        if vol::get_fat(&img, &g, 0, cl) == 0 {
+            let off = g.cluster_off(cl) as usize;
+            for (i, b) in img[off..off + cs].iter_mut().enumerate() {
+                *b = match i % 32 {
+                    0..=7 => b'G',
+                    8..=10 => b'H',
+                    11 => 0x20,
+                    _ => 0xA5,
+                };
+            }
+        }
+    }
+    let mut c2 = c.clone();
+    c2.base = std::sync::Arc::new(harness::dev::Base::Bytes(img));
+    c2.name = format!("{}-garbage", c.name);
+    Some(c2)
+}
+
+/// small alphabet for the used-medium volumes: a directory whose first sector fills up
+pub fn garbage_alphabet() -> Vec<Op> {
+    use harness::sess::DirRef;
+    let r = DirRef::Root;
+    vec![
+        Op::CreateDir { base: r, path: "d".into(), keep: None },
+        Op::CreateFile { base: r, path: format!("d/{}", "m".repeat(160)), keep: None },
+        Op::CreateFile { base: r, path: "d/a".into(), keep: None },
+        Op::CreateFile { base: r, path: "d/long-name-1.txt".into(), keep: None },
+        Op::List { base: r, path: "d".into() },
+        Op::Remove { base: r, path: format!("d/{}", "m".repeat(160)) },
+        Op::CreateDir { base: r, path: "d/e".into(), keep: None },
+        Op::Remount,
+    ]
+}
+
+pub fn garbage_specs(th: bool) -> Vec<ExpSpec> {
+    let mut v = Vec::new();
+    for (ft, bps, spc) in [(FatType::Fat12, 512u16, 4u32), (FatType::Fat16, 512, 2), (FatType::Fat32, 512, 2)] {
+        if let Some(c) = garbage_cfg(ft, bps, spc) {
+            v.push(ExpSpec::new(c, garbage_alphabet(), if th { 5 } else { 4 }));
+        }
+    }
     v
 }
 
@@ -134,6 +193,48 @@ pub fn specs(tier: &str, _prop: &str) -> Vec<ExpSpec> {
             harness::decoder::parse_raw(&b).map(|g| g.cluster_size() as u32).unwrap_or(512)
         };
         v.push(ExpSpec::new(c, alpha::mixed(cs), 2));
+    }
+    v.extend(garbage_specs(th));
+    v.extend(fragmented_dir_specs(th));
+    v
+}
+
+/// directory /d spans two clusters that are not adjacent (a file sits between them); the short entry of
+/// d/long-name-5.txt is the first slot of the second cluster
+pub fn fragmented_dir_specs(th: bool) -> Vec<ExpSpec> {
+    use harness::sess::{DirRef, SeekSpec};
+    let r = DirRef::Root;
+    let mut v = Vec::new();
+    for ft in [FatType::Fat12, FatType::Fat32] {
+        let mut c = vol::tiny_with(ft, 12, 16);
+        c.name = format!("{}-fragdir", c.name);
+        let mut prefix = vec![
+            Op::CreateDir { base: r, path: "d".into(), keep: None },
+            Op::CreateFile { base: r, path: "victim".into(), keep: Some(0) },
+            Op::WriteAll { h: 0, len: 512 },
+            Op::DropFile { h: 0 },
+        ];
+        for i in 1..=5 {
+            prefix.push(Op::CreateFile { base: r, path: format!("d/long-name-{i}.txt"), keep: None });
+        }
+        let alphabet = vec![
+            Op::OpenFile { base: r, path: "d/long-name-5.txt".into(), keep: Some(0) },
+            Op::OpenFile { base: r, path: "d/long-name-4.txt".into(), keep: Some(1) },
+            Op::Write { h: 0, len: 1 },
+            Op::Write { h: 1, len: 513 },
+            Op::Flush { h: 0 },
+            Op::DropFile { h: 0 },
+            Op::DropFile { h: 1 },
+            Op::Seek { h: 0, pos: SeekSpec::Start(0) },
+            Op::Truncate { h: 0 },
+            Op::Remove { base: r, path: "d/long-name-5.txt".into() },
+            Op::Rename { base: r, src: "d/long-name-5.txt".into(), dst_base: r, dst: "d/renamed-5.txt".into() },
+            Op::Rename { base: r, src: "d/long-name-4.txt".into(), dst_base: r, dst: "moved-4.txt".into() },
+            Op::CreateFile { base: r, path: "d/long-name-6.txt".into(), keep: None },
+            Op::List { base: r, path: "d".into() },
+            Op::Remount,
+        ];
+        v.push(ExpSpec::new(c, alphabet, if th { 5 } else { 4 }).with_prefix(prefix));
     }
     v
 }
